@@ -60,9 +60,14 @@ def main():
             if f.endswith(".report.json"):
                 rep = json.load(open(os.path.join(ev, f)))
                 caught[rep["property_id"]] = sorted({"%s %s [%s]" % (o["rule"], o["construct"], o["status"]) for o in rep["obligations"]})
-        confirmed = rc_clean == 0 and rc_apply == 0 and rc_build == 0 and rc_suite == 0 and rc_mut != 0
+        kind = meta.get("kind", "defect")
+        if kind == "refactoring":
+            confirmed = rc_clean == 0 and rc_apply == 0 and rc_build == 0 and rc_suite == 0 and rc_mut == 0
+        else:
+            confirmed = rc_clean == 0 and rc_apply == 0 and rc_build == 0 and rc_suite == 0 and rc_mut != 0
         result = {
             "seed": sid,
+            "kind": kind,
             "property": prop,
             "summary": meta.get("summary", ""),
             "needs_to_manifest": meta.get("needs_to_manifest", ""),
@@ -72,7 +77,7 @@ def main():
                 "scratch copy of /repo/v4; demonstration on the unmodified copy (must pass): exit %d" % rc_clean,
                 "git apply patch.diff: exit %d; go build ./...: exit %d" % (rc_apply, rc_build),
                 "unedited suite `go test -vet=off -count=1 ./...` with the change (must pass): exit %d" % rc_suite,
-                "demonstration with the change (must fail): exit %d" % rc_mut,
+                "demonstration with the change (%s): exit %d" % ("must fail" if kind != "refactoring" else "must still pass", rc_mut),
                 "/verif/bin/vcheck -property all on the changed copy",
             ],
             "confirmed": confirmed,
@@ -80,7 +85,7 @@ def main():
             "detected_by": caught,
             "detected_by_own_property": prop in caught,
         }
-        print(json.dumps({k: result[k] for k in ("seed", "confirmed", "detected_by_own_property")}), sorted(caught))
+        print(json.dumps({k: result[k] for k in ("seed", "kind", "confirmed", "detected_by_own_property")}), sorted(caught))
         if not confirmed:
             print("NOT CONFIRMED:", rc_clean, rc_apply, rc_build, rc_suite, rc_mut)
             print(out_clean[-400:] if rc_clean else "", out_apply[-300:], out_build[-300:], out_suite[-300:] if rc_suite else "")
